@@ -24,6 +24,7 @@ type Report struct {
 	Level string
 
 	Skeletons      int
+	Skipped        int
 	SkelErrors     []string
 	Paths          int
 	Forks          int
@@ -66,6 +67,10 @@ func NewReport(id, tier string, seed int64) *Report {
 
 // AddSkel folds one skeleton's result into the report.
 func (r *Report) AddSkel(sk *Skeleton, s *SkelResult) {
+	if s.Skipped {
+		r.Skipped++
+		return
+	}
 	r.Skeletons++
 	r.Families[sk.Family]++
 	if s.SkelError != "" {
@@ -211,9 +216,16 @@ func (r *Report) Finish(t0 time.Time) int {
 		fmt.Println(l)
 	}
 	if violations > 0 {
+		if r.Skipped > 0 {
+			fmt.Printf("note: stopped early after confirmed violations; %d skeletons not explored\n", r.Skipped)
+		}
 		return 1
 	}
 	bad := false
+	if r.Skipped > 0 {
+		bad = true
+		fmt.Printf("INCONCLUSIVE: the run passed its deadline (%s); %d skeletons not explored\n", RunDeadline, r.Skipped)
+	}
 	if len(r.SkelErrors) > 0 {
 		bad = true
 		for i, e := range r.SkelErrors {
@@ -381,8 +393,15 @@ func RunCheck(id, tier string, seed int64) int {
 		return 2
 	}
 	cc := &CheckCtx{ID: id, Tier: tier, Seed: seed, P: p, Workers: runtime.NumCPU(), Timeout: 10000}
+	sx.DefaultLimits.MaxWall = 5 * time.Minute
+	RunDeadline = 25 * time.Minute
 	if cc.Thorough() {
 		cc.Timeout = 60000
+		sx.DefaultLimits.MaxWall = time.Hour
+		RunDeadline = 8 * time.Hour
+	}
+	if d, err := time.ParseDuration(os.Getenv("SYMGO_DEADLINE")); err == nil && d > 0 {
+		RunDeadline = d
 	}
 	r := NewReport(id, tier, seed)
 	fn(cc, r)
